@@ -39,6 +39,8 @@ fn type_bits(t: Type) -> u32 {
 }
 
 pub struct GenOut {
+    /// depth below which no gated bad state can hold (a good bound is near it)
+    pub depth_hint: Option<u64>,
     pub sys: TransitionSystem,
     /// which directed patterns were planted
     pub features: Vec<&'static str>,
@@ -247,6 +249,10 @@ pub fn gen_mc_sys(ctx: &mut Context, rng: &mut Rng, cfg: &McCfg, stats: &mut Sta
     }
 
     // ---- bad states
+    let gate_depth: Option<u64> = if counter.is_some() && rng.chance(1, 2) { Some(rng.range(1, 6)) } else { None };
+    if gate_depth.is_some() {
+        features.push("bads-gated-by-counter");
+    }
     let n_bads = rng.range(1, 3);
     for b in 0..n_bads {
         let e = match rng.below(14) {
@@ -296,6 +302,15 @@ pub fn gen_mc_sys(ctx: &mut Context, rng: &mut Rng, cfg: &McCfg, stats: &mut Sta
                 }
             }
         };
+        // gate the bad state by a counter threshold: deeper counterexamples
+        let e = match (counter, gate_depth) {
+            (Some((c, w)), Some(v)) if e.get_bv_type(ctx) == Some(1) => {
+                let lit = ctx.bv_lit(&baa::BitVecValue::from_u64(v.min((1u64 << w) - 1), w));
+                let ge = ctx.greater_or_equal(c, lit);
+                ctx.and(ge, e)
+            }
+            _ => e,
+        };
         sys.bad_states.push(e);
         if rng.chance(1, 4) && !ctx[e].is_symbol() && !matches!(ctx[e], Expr::BVLiteral(_)) && sys.names[e].is_none() {
             let n = ctx.string(format!("bad_{b}").into());
@@ -342,7 +357,7 @@ pub fn gen_mc_sys(ctx: &mut Context, rng: &mut Rng, cfg: &McCfg, stats: &mut Sta
     }
     features.sort();
     features.dedup();
-    GenOut { sys, features }
+    GenOut { sys, features, depth_hint: gate_depth }
 }
 
 // ---------------------------------------------------------------- directed systems
